@@ -20,6 +20,7 @@ Init == pos = 1 /\ st = EmptyStore
 Next ==
   /\ pos <= Len(Trace) /\ pos' = pos + 1
   /\ IF Ev.ev = "reset" THEN st' = EmptyStore
+     ELSE IF Ev.ev = "sync" THEN st' = FromProj(Ev.proj, {})
      ELSE LET r == Apply(st, Ev.cmd)
               logged == FromProj(Ev.proj, r.st.wf)
           IN /\ IF r.resp = Ev.resp /\ SameProj(r.st, Ev.proj) THEN TRUE
